@@ -607,7 +607,10 @@ func history(in, out string) int {
 				if want, _ := last["status"].(string); want != seen {
 					r.bad("conformance", fmt.Sprintf("conformance|status|%s|%s|model-%s|real-%s", st.Action, sig, want, seen),
 						fmt.Sprintf("%s %v: the client saw %s, the model says %s", st.Action, st.Args, seen, want), nil)
-					abort = true // the states have diverged
+					// the states have diverged: the properties are still evaluated on the real answers of this step
+					// (without the model's view), then the history ends
+					r.check(r.sweep(), nil, nil)
+					abort = true
 				}
 			case "CacheClear":
 				if err := resetCache(); err != nil {
